@@ -19,6 +19,7 @@ type taintEngine struct {
 	entries map[*ssa.Function]string // registered Go functions -> elvish name
 	tainted map[ssa.Value]string     // value -> origin description
 	work    []ssa.Value
+	sites   map[*ssa.Function][]ssa.CallInstruction
 }
 
 func isNumeric(t types.Type) bool {
@@ -308,6 +309,40 @@ func (t *taintEngine) propagate() {
 						t.mark(a, why)
 					}
 				}
+			case *ssa.Return:
+				// a helper of this repository returns the number: it is
+				// script-controlled at every call site (numbers only: for
+				// interface values the dynamic type is what matters, and that
+				// is established inside the helper)
+				fn := r.Parent()
+				if fn.Parent() != nil || !strings.HasPrefix(core.PkgPathOf(fn), core.ModPath+"/") {
+					continue
+				}
+				if _, isEntry := t.entries[fn]; isEntry {
+					continue
+				}
+				for i, res := range r.Results {
+					if res != v {
+						continue
+					}
+					for _, site := range t.callSites(fn) {
+						val, ok := site.(ssa.Value)
+						if !ok {
+							continue
+						}
+						if len(r.Results) == 1 {
+							if isNumeric(val.Type()) {
+								t.mark(val, why+" -> return of "+fn.Name())
+							}
+							continue
+						}
+						for _, ref := range *val.Referrers() {
+							if ex, ok := ref.(*ssa.Extract); ok && ex.Index == i && isNumeric(ex.Type()) {
+								t.mark(ex, why+" -> return of "+fn.Name())
+							}
+						}
+					}
+				}
 			case ssa.CallInstruction:
 				c := r.Common()
 				callee := core.Callee(r)
@@ -365,4 +400,21 @@ func (t *taintEngine) propagate() {
 			}
 		}
 	}
+}
+
+// callSites: the static call sites of fn in the repository (built lazily).
+func (t *taintEngine) callSites(fn *ssa.Function) []ssa.CallInstruction {
+	if t.sites == nil {
+		t.sites = map[*ssa.Function][]ssa.CallInstruction{}
+		for _, f := range t.p.RepoFns {
+			core.Instrs(f, func(ins ssa.Instruction) {
+				if c, ok := ins.(ssa.CallInstruction); ok {
+					if callee := c.Common().StaticCallee(); callee != nil {
+						t.sites[callee] = append(t.sites[callee], c)
+					}
+				}
+			})
+		}
+	}
+	return t.sites[fn]
 }
